@@ -1,14 +1,114 @@
-import AdaptaVerif.Model.Geometry
-import Mathlib.Tactic.Linarith
-import Mathlib.Tactic.Ring
+/-
+C16 — libavoid geometry predicates agree with exact arithmetic.
+Property theorems only. `Model.Geometry` is the hand model over ℚ; `Gen.Geometry` is regenerated
+from /repo's C++ by cpp2lean on every run and proved equal to the model (tie theorems below).
+-/
+import AdaptaVerif.Lemmas.GeometryBridge
+import AdaptaVerif.Lemmas.GeometrySpec
 namespace AdaptaVerif.Props.C16
-open AdaptaVerif.Model.Geometry
+open AdaptaVerif.Model.Geometry AdaptaVerif.Lemmas
+open AdaptaVerif.Lemmas.GeometryBridge
 
-/-- orientation is antisymmetric under swapping the first two points -/
-theorem vecDir_swap (a b c : Pt) : vecDir a b c = - vecDir b a c := by
-  have h : area2 a b c = - area2 b a c := by unfold area2; ring
-  unfold vecDir
-  simp only [h]
-  split_ifs <;> first | rfl | (exfalso; linarith)
+/-! ## Tie: the kernels generated from the current C++ are the model -/
+
+theorem gen_kernels_are_model :
+    (∀ a b c z, Gen.vecDir a b c z = M.vecDir a b c z) ∧
+    (∀ a b c, Gen.inBetween a b c = M.inBetween a b c) ∧
+    (∀ a b c t, Gen.colinear a b c t = M.colinear a b c t) ∧
+    (∀ a b c t, Gen.pointOnLine a b c t = M.pointOnLine a b c t) ∧
+    (∀ a b c d, Gen.segmentIntersect a b c d = M.segmentIntersect a b c d) ∧
+    (∀ i a0 a1 a2 b, Gen.inValidRegion i a0 a1 a2 b = M.inValidRegion i a0 a1 a2 b) ∧
+    (∀ c1 c2 c3 p, Gen.cornerSide c1 c2 c3 p = M.cornerSide c1 c2 c3 p) ∧
+    (∀ a1 a2 b1 b2, Gen.segmentIntersectPoint a1 a2 b1 b2 = M.segmentIntersectPoint a1 a2 b1 b2) ∧
+    (∀ a1 a2 b1 b2, Gen.rayIntersectPoint a1 a2 b1 b2 = M.rayIntersectPoint a1 a2 b1 b2) :=
+  ⟨GeometryBridge.vecDir_eq, GeometryBridge.inBetween_eq, GeometryBridge.colinear_eq,
+   GeometryBridge.pointOnLine_eq, GeometryBridge.segmentIntersect_eq, GeometryBridge.inValidRegion_eq,
+   GeometryBridge.cornerSide_eq, GeometryBridge.segmentIntersectPoint_eq, GeometryBridge.rayIntersectPoint_eq⟩
+
+/-- none of the assertions inside the kernels can fire with the default (zero) tolerance -/
+theorem gen_kernels_assertions_hold :
+    (∀ a b c z, 0 ≤ z → Gen.vecDir_pre a b c z = true) ∧
+    (∀ a b c d, Gen.segmentIntersect_pre a b c d = true) ∧
+    (∀ a b c, Gen.pointOnLine_pre a b c 0 = true) ∧
+    (∀ a b c t, 0 ≤ t → Gen.colinear_pre a b c t = true) ∧
+    (∀ i a0 a1 a2 b, Gen.inValidRegion_pre i a0 a1 a2 b = true) ∧
+    (∀ c1 c2 c3 p, Gen.cornerSide_pre c1 c2 c3 p = true) :=
+  ⟨GeometryBridge.vecDir_pre_of_nonneg, GeometryBridge.segmentIntersect_pre_true,
+   GeometryBridge.pointOnLine_pre_zero, GeometryBridge.colinear_pre_of_nonneg,
+   GeometryBridge.inValidRegion_pre_true, GeometryBridge.cornerSide_pre_true⟩
+
+/-! ## Orientation -/
+
+/-- `vecDir` is the sign of the cross product (b−a)×(c−a) -/
+theorem vecDir_is_orientation (a b c : Pt) :
+    (vecDir a b c = 1 ↔ 0 < area2 a b c) ∧ (vecDir a b c = -1 ↔ area2 a b c < 0) ∧
+    (vecDir a b c = 0 ↔ area2 a b c = 0) := GeometrySpec.vecDir_sign a b c
+
+theorem vecDir_swap (a b c : Pt) : vecDir a b c = - vecDir b a c := GeometrySpec.vecDir_swap a b c
+theorem vecDir_cyclic (a b c : Pt) : vecDir a b c = vecDir b c a := GeometrySpec.vecDir_cyclic a b c
+theorem vecDir_translate (a b c t : Pt) :
+    vecDir (GeometrySpec.addPt a t) (GeometrySpec.addPt b t) (GeometrySpec.addPt c t) = vecDir a b c :=
+  GeometrySpec.vecDir_translate a b c t
+
+/-- `colinear` (zero tolerance) ⇔ the three points are collinear -/
+theorem colinear_iff (a b c : Pt) : colinear a b c = true ↔ area2 a b c = 0 := GeometrySpec.colinear_iff a b c
+
+/-! ## Segment intersection -/
+
+/-- `segmentIntersect` ⇔ the two segments cross properly: a single common point interior to both
+    (and the segments are not parallel) -/
+theorem segmentIntersect_iff_proper_crossing (a b c d : Pt) :
+    segmentIntersect a b c d = true ↔
+      ∃ s t : Rat, 0 < s ∧ s < 1 ∧ 0 < t ∧ t < 1 ∧
+        a.x + s * (b.x - a.x) = c.x + t * (d.x - c.x) ∧ a.y + s * (b.y - a.y) = c.y + t * (d.y - c.y) ∧
+        (b.x - a.x) * (d.y - c.y) - (b.y - a.y) * (d.x - c.x) ≠ 0 :=
+  GeometrySpec.segmentIntersect_iff a b c d
+
+theorem segmentIntersect_symm (a b c d : Pt) :
+    segmentIntersect a b c d = segmentIntersect b a c d ∧
+    segmentIntersect a b c d = segmentIntersect a b d c ∧
+    segmentIntersect a b c d = segmentIntersect c d a b := GeometrySpec.segmentIntersect_symm a b c d
+
+/-- `pointOnLine` (zero tolerance) ⇔ c lies in the *open* segment ab (the code is strict although its
+    comment says "closed") -/
+theorem pointOnLine_iff_open_segment (a b c : Pt) :
+    pointOnLine a b c = true ↔ ∃ t : Rat, 0 < t ∧ t < 1 ∧ c.x = a.x + t * (b.x - a.x) ∧ c.y = a.y + t * (b.y - a.y) ∧ a ≠ b :=
+  GeometrySpec.pointOnLine_iff a b c
+
+theorem pointOnLine_symm (a b c : Pt) : pointOnLine a b c = pointOnLine b a c := GeometrySpec.pointOnLine_symm a b c
+
+/-! ## Point in convex polygon -/
+
+/-- `inPoly` ⇔ q is on the non-negative side of every edge (strictly positive when the border does not count) -/
+theorem inPoly_iff (poly : List Pt) (q : Pt) :
+    (inPoly poly q true = true ↔ ∀ e ∈ edges poly, 0 ≤ area2 e.1 e.2 q) ∧
+    (inPoly poly q false = true ↔ ∀ e ∈ edges poly, 0 < area2 e.1 e.2 q) := GeometrySpec.inPoly_iff poly q
+
+/-! ## Segment intersection point -/
+
+/-- when `segmentIntersectPoint` answers DO_INTERSECT, the returned point lies on both closed
+    segments; PARALLEL is answered only for parallel directions; -/
+theorem segmentIntersectPoint_sound (a1 a2 b1 b2 : Pt) :
+    (∀ x y, segmentIntersectPoint a1 a2 b1 b2 = (DO_INTERSECT, x, y) →
+      ∃ s t : Rat, 0 ≤ s ∧ s ≤ 1 ∧ 0 ≤ t ∧ t ≤ 1 ∧
+        x = a1.x + s * (a2.x - a1.x) ∧ y = a1.y + s * (a2.y - a1.y) ∧
+        x = b1.x + t * (b2.x - b1.x) ∧ y = b1.y + t * (b2.y - b1.y)) ∧
+    (∀ x y, segmentIntersectPoint a1 a2 b1 b2 = (PARALLEL, x, y) →
+      (a2.y - a1.y) * (b1.x - b2.x) - (a2.x - a1.x) * (b1.y - b2.y) = 0) :=
+  GeometrySpec.segmentIntersectPoint_sound a1 a2 b1 b2
+
+/-! ## Exactness on small integers (why the double computation equals the ℚ model) -/
+
+/-- for integer coordinates bounded by B, the only intermediate products are integers bounded by
+    8·B²; with B = 2^20 that is 2^43 < 2^53, so IEEE double arithmetic computes `area2` exactly -/
+theorem area2_integer_bounded (B : Int) (ax ay bx by' cx cy : Int)
+    (h : |ax| ≤ B ∧ |ay| ≤ B ∧ |bx| ≤ B ∧ |by'| ≤ B ∧ |cx| ≤ B ∧ |cy| ≤ B) :
+    ∃ n : Int, area2 ⟨ax, ay⟩ ⟨bx, by'⟩ ⟨cx, cy⟩ = (n : Rat) ∧ |n| ≤ 8 * B * B ∧
+      |(bx - ax) * (cy - ay)| ≤ 4 * B * B ∧ |(cx - ax) * (by' - ay)| ≤ 4 * B * B :=
+  GeometrySpec.area2_integer_bounded B ax ay bx by' cx cy h
+
+example : (8 : Int) * 2^20 * 2^20 < 2^53 := by decide
+example : segmentIntersect ⟨0,0⟩ ⟨2,2⟩ ⟨0,2⟩ ⟨2,0⟩ = true := by norm_num [segmentIntersect, vecDir, area2]
+example : pointOnLine ⟨0,0⟩ ⟨2,2⟩ ⟨1,1⟩ = true := by norm_num [pointOnLine, inBetween, strictBetween, vecDir, area2, absR, eps]
 
 end AdaptaVerif.Props.C16
